@@ -112,11 +112,16 @@ IdxFor(sh) ==
   IF Len(sh) = 1 THEN {Basic(<<SL(TRUE, 0, FALSE, 2, TRUE, 1)>>), Basic(<<SL(TRUE, 0, TRUE, 0, FALSE, -1)>>), Basic(<<IntI(-1)>>),
                        Basic(<<[t |-> "new"], Full>>), Basic(<<[t |-> "ell"]>>),
                        [t |-> "adv", arrs |-> <<[sh |-> <<3>>, v |-> <<0, 0, 2>>]>>],
+                       [t |-> "adv", arrs |-> <<[sh |-> <<3>>, v |-> <<0, 0, 2>>]>>, as |-> "tuple"],
+                       [t |-> "adv", arrs |-> <<[sh |-> <<3>>, v |-> <<2, -2, 2>>]>>, as |-> "tensor"],
+                       [t |-> "adv", arrs |-> <<[sh |-> <<3>>, v |-> <<1, 1, 1>>]>>, as |-> "list"],
                        [t |-> "adv", arrs |-> <<[sh |-> <<2, 2>>, v |-> <<1, -1, 0, 1>>]>>],
                        [t |-> "mask", m |-> [sh |-> <<sh[1]>>, v |-> [i \in 1..sh[1] |-> i % 2 = 1]]]}
   ELSE {Basic(<<IntI(0)>>), Basic(<<Full, IntI(-1)>>), Basic(<<SL(TRUE, 0, TRUE, 0, FALSE, -1), SL(FALSE, 1, TRUE, 0, TRUE, 1)>>),
         Basic(<<IntI(1), IntI(0)>>), Basic(<<[t |-> "ell"], [t |-> "new"]>>),
         [t |-> "adv", arrs |-> <<[sh |-> <<2>>, v |-> <<1, 1>>], [sh |-> <<2>>, v |-> <<0, 2>>]>>],
+        [t |-> "adv", arrs |-> <<[sh |-> <<3>>, v |-> <<1, 1, 1>>], [sh |-> <<3>>, v |-> <<0, 2, 0>>]>>, as |-> "tuple"],
+        [t |-> "adv", arrs |-> <<[sh |-> <<3>>, v |-> <<1, 1, 1>>], [sh |-> <<3>>, v |-> <<0, 2, 0>>]>>, as |-> "tensor"],
         [t |-> "adv", arrs |-> <<[sh |-> <<3>>, v |-> <<0, 1, 0>>]>>],
         [t |-> "mask", m |-> [sh |-> sh, v |-> [i \in 1..Size(sh) |-> i % 3 # 0]]],
         [t |-> "mask", m |-> [sh |-> <<sh[1]>>, v |-> [i \in 1..sh[1] |-> i = 1]]]}
@@ -162,6 +167,10 @@ MoveProgs ==
             [k |-> "op", h |-> 2, f |-> "stack", a |-> <<Opnd(1), Opnd(1)>>, axis |-> -1],
             [k |-> "op", h |-> 2, f |-> "where", a |-> <<Opnd(1), [s |-> Q(9)]>>, cond |-> [sh |-> <<3>>, v |-> <<TRUE, FALSE, TRUE>>]],
             [k |-> "op", h |-> 2, f |-> "where", a |-> <<Opnd(1), Opnd(1)>>, cond |-> [sh |-> <<2, 1>>, v |-> <<FALSE, TRUE>>]]}}
+  \* broadcast_to stretching inner / several / leading axes of length 1
+  \cup {<< Leaf(1, c[1], "A", FALSE), [k |-> "op", h |-> 2, f |-> "broadcast_to", a |-> <<Opnd(1)>>, sh |-> c[2]] >> :
+          c \in {<<<<3, 1>>, <<3, 4>>>>, <<<<2, 1, 3>>, <<2, 2, 3>>>>, <<<<1, 3>>, <<2, 3>>>>, <<<<3, 1>>, <<2, 3, 2>>>>,
+                 <<<<1, 2, 1>>, <<2, 2, 3>>>>, <<<<>>, <<2, 2>>>>, <<<<1>>, <<3>>>>}}
   \cup {<< Leaf(1, <<3, 3>>, "A", FALSE), [k |-> "op", h |-> 2, f |-> "diag", a |-> <<Opnd(1)>>] >>,
         << Leaf(1, <<2, 1, 3>>, "A", FALSE), [k |-> "op", h |-> 2, f |-> "squeeze", a |-> <<Opnd(1)>>] >>,
         << Leaf(1, <<2, 1, 3>>, "A", FALSE), [k |-> "op", h |-> 2, f |-> "squeeze", a |-> <<Opnd(1)>>, axis |-> <<1>>] >>}
